@@ -42,8 +42,15 @@ Definition pconvert_io {A} (m : P A) : P A := pcatch m is_eio (fun _ => praise E
 
 Definition in_ssize (n : Z) : bool := (- c04_two63 <=? n) && (n <? c04_two63).
 
+(* take / drop with a Z count, by recursion on the list (equal to ztake / zdrop -- Proofs.C04_lib -- but the
+   extracted code never builds a unary number from a length field found in the input) *)
+Fixpoint ltake (n : Z) (l : list Z) : list Z :=
+  match l with [] => [] | x :: t => if n <=? 0 then [] else x :: ltake (n - 1) t end.
+Fixpoint ldrop (n : Z) (l : list Z) : list Z :=
+  match l with [] => [] | x :: t => if n <=? 0 then l else ldrop (n - 1) t end.
+Definition lslice (a b : Z) (l : list Z) : list Z := ltake (b - a) (ldrop a l).      (* = zslice a b l *)
 (* the bytes a read(n) at position p returns *)
-Definition rd (n p : Z) (d : list Z) : list Z := if n <? 0 then zdrop p d else ztake n (zdrop p d).
+Definition rd (n p : Z) (d : list Z) : list Z := if n <? 0 then ldrop p d else ltake n (ldrop p d).
 Definition p_read (n : Z) : P (list Z) := fun d p =>
   if negb (in_ssize n) then (Raise EOverflow, p)
   else let r := rd n p d in (Ok r, p + zlen r).
